@@ -205,6 +205,9 @@ def r16b(ck, prog):
 
 
 # --------------------------------------------------------------------------- R16d
+RELEASERS_BY_ADDRESS = set()      # (function, param index): frees *param and sets it to NULL
+
+
 def _out_allocators(prog, E):
     """(function, param index) pairs whose callee stores a fresh object through a T** parameter"""
     out = set()
@@ -213,6 +216,17 @@ def _out_allocators(prog, E):
             if p["ty"].endswith("**") or p["ty"].endswith("* *"):
                 S = E.of_param(F.name, i)
                 if () in S.pwrites:
+                    # a function that releases *p and clears it (release_x(&p)) also stores through p: not an allocator
+                    pn = p["name"]
+                    sts = [a for a in F.body.find("BinaryOperator") if a.d["op"] == "=" and a.kids[0].strip().k == "UnaryOperator" and
+                           a.kids[0].strip().d["op"] == "*" and a.kids[0].strip().kids[0].strip(casts=True).text() == pn]
+                    only_null = bool(sts) and all(a.kids[1].strip(casts=True).cv == 0 or "NULL" in "".join(a.kids[1].strip(casts=True).mac or []) or
+                                                  "NULL" in "".join(a.kids[1].mac or []) for a in sts)
+                    frees_it = any(("free" in (c.callee or "").lower() or c.callee == "fclose") and c.args and
+                                   c.args[0].strip(casts=True).text() in ("*" + pn, "*%s" % pn) for c in F.body.calls())
+                    if only_null and frees_it:
+                        RELEASERS_BY_ADDRESS.add((F.name, i))
+                        continue
                     out.add((F.name, i))
     return out
 
@@ -275,6 +289,9 @@ def r16d(ck, prog, functions=None, rule="R16d", all_exits=True):
                 cal = c.callee or ""
                 if "free" in cal.lower() or cal in ("fclose", "gfree"):
                     barriers.append(c)
+                elif any((cal, i_) in RELEASERS_BY_ADDRESS for i_, a_ in enumerate(c.args) if a_ in uses and a_.strip(casts=True).k == "UnaryOperator"
+                         and a_.strip(casts=True).d["op"] == "&"):
+                    barriers.append(c)               # release_x(&p): frees and clears
                 elif cal in prog.functions:
                     # handed to a function that takes ownership? (stores it / frees it)
                     for i, a in enumerate(c.args):
